@@ -338,6 +338,17 @@ class Exec:
         self._number_loops(func.body)
         self.exports = export_table()
         self.dropped = set(func.dropped)
+        self.imports = self._import_table(func.module)
+
+    def _import_table(self, module):
+        """local name -> dotted library path for `from scipy.linalg import lu`-style imports of the module."""
+        _, tree = module_ast(module)
+        tab = {}
+        for n in tree.body:
+            if isinstance(n, ast.ImportFrom) and n.level == 0 and n.module and n.module.split('.')[0] in ('numpy', 'scipy', 'opt_einsum'):
+                for a in n.names:
+                    tab[a.asname or a.name] = f'{n.module}.{a.name}'
+        return tab
 
     # ---- helpers
     def fresh(self, name, sort=None):
@@ -612,6 +623,8 @@ class Exec:
             return (not t) if isinstance(t, bool) else z3.Not(t)
         if isinstance(v, VArr):
             return self.models.arr_unary(self, st, e.op, v, e)
+        if isinstance(v, VOpaque):
+            return VOpaque('neg')
         v = self.need_num(st, v, e)
         if isinstance(e.op, ast.USub):
             return -v
@@ -823,7 +836,10 @@ class Exec:
         # method calls on values
         if isinstance(e.func, ast.Attribute) and name not in self.models.FUNCS:
             root = e.func.value
-            rootname = ast.unparse(root).split('.')[0]
+            base = root
+            while isinstance(base, ast.Attribute):
+                base = base.value
+            rootname = base.id if isinstance(base, ast.Name) else None       # None: receiver is an expression value
             if not (rootname in ('np', 'sp', 'scipy', 'numpy', 'teneva', 'itertools') and rootname not in st.vars):
                 recv = self.ev(root, st)
                 args = [self.ev(a, st) for a in e.args]
@@ -831,7 +847,19 @@ class Exec:
                 if isinstance(st.deref(recv), VOpaque):
                     return VOpaque('method')
                 return self.models.method(self, st, recv, e.func.attr, args, kwargs, e)
+        if isinstance(e.func, ast.Name) and name in self.imports:
+            name = self.imports[name]
         h = self.models.FUNCS.get(name)
+        if h is not None and self.lenient and name.split('.')[0] in ('np', 'sp', 'scipy', 'numpy'):
+            args = [self.ev(a, st) for a in e.args]
+            kwargs = {k.arg: self.ev(k.value, st) for k in e.keywords}
+            try:
+                return h(self, st, args, kwargs, e)
+            except ContractMismatch:
+                raise
+            except Unsupported:
+                self.models.used(f'{name}(...) calling pattern not modelled -> opaque array (lenient tier)')
+                return VOpaque(name)
         if h is None:
             if self.lenient and name.split('.')[0] in ('np', 'sp', 'scipy', 'numpy'):
                 args = [self.ev(a, st) for a in e.args] + [self.ev(k.value, st) for k in e.keywords]
